@@ -27,6 +27,7 @@ type c08Case struct {
 	status           int
 	head             bool
 	hdrReq, hdrOpt   bool // declared headers
+	optObj           bool // the optional header is an object with explode:true (default style) instead of an integer array
 	withContent      bool
 	reqVal, optVal   int // 0 absent, 1 valid, 2 invalid
 	ct               string
@@ -36,8 +37,8 @@ type c08Case struct {
 }
 
 func (c c08Case) sig() string {
-	return fmt.Sprintf("responses=%v status=%d head=%v headers{required:%v,optional:%v} content=%v response{X-Req:%d,X-Opt:%d,type=%q,body=%s} IncludeResponseStatus=%v ExcludeResponseBody=%v ExcludeWriteOnlyValidations=%v MultiError=%v",
-		c.keys, c.status, c.head, c.hdrReq, c.hdrOpt, c.withContent, c.reqVal, c.optVal, c.ct, c.body, c.inclStatus, c.exBody, c.exWO, c.me)
+	return fmt.Sprintf("responses=%v status=%d head=%v headers{required:%v,optional:%v%s} content=%v response{X-Req:%d,X-Opt:%d,type=%q,body=%s} IncludeResponseStatus=%v ExcludeResponseBody=%v ExcludeWriteOnlyValidations=%v MultiError=%v",
+		c.keys, c.status, c.head, c.hdrReq, c.hdrOpt, map[bool]string{false: "", true: "(exploded object)"}[c.optObj], c.withContent, c.reqVal, c.optVal, c.ct, c.body, c.inclStatus, c.exBody, c.exWO, c.me)
 }
 
 func c08BodySchema(marker string) map[string]any {
@@ -56,6 +57,9 @@ func (c c08Case) document() map[string]any {
 		}
 		if c.hdrOpt {
 			hs["X-Opt"] = m("schema", m("type", "array", "items", m("type", "integer")))
+			if c.optObj {
+				hs["X-Opt"] = m("explode", true, "schema", m("type", "object", "properties", m("R", m("type", "integer"), "G", m("type", "integer")), "required", l("R")))
+			}
 		}
 		if c.hdrReq && c.hdrOpt {
 			hs["Content-Type"] = m("required", true, "schema", m("type", "integer")) // must be ignored
@@ -120,6 +124,7 @@ func init() {
 				c.reqVal = x.Choose(3)
 			}
 			if c.hdrOpt {
+				c.optObj = x.Bool()
 				if c.reqVal == 2 && r.Tier != "thorough" {
 					c.optVal = x.Choose(2)
 				} else {
@@ -163,7 +168,7 @@ func init() {
 			if c.body == "other-entry-marker" && (other == "" || !declared) {
 				return
 			}
-			dk := fmt.Sprint(c.keys, c.hdrReq, c.hdrOpt, c.withContent)
+			dk := fmt.Sprint(c.keys, c.hdrReq, c.hdrOpt, c.optObj, c.withContent)
 			ent, okc := c08Docs[dk]
 			if !okc {
 				dj, _ := json.Marshal(c.document())
@@ -196,8 +201,14 @@ func init() {
 			switch c.optVal {
 			case 1:
 				hdr.Set("X-Opt", "1,2")
+				if c.optObj {
+					hdr.Set("X-Opt", "R=1,G=2")
+				}
 			case 2:
 				hdr.Set("X-Opt", "a,b")
+				if c.optObj {
+					hdr.Set("X-Opt", "R,1,G,2") // the spelling of explode:false
+				}
 			}
 			var bodyVal map[string]any
 			switch c.body {
